@@ -181,16 +181,17 @@ def Spec.decodePlain : List UInt8 → Option (List UInt8 × List UInt8)
   | [] => none
   | z :: r => if z = 0 then Spec.splitAtNul r else none
 
-/-! ### connection start-up as a function of the frames the server answers with
-    (conn.go `options` → `startup` → `authenticateHandshake`) -/
+/-! ### connection start-up as a function of the configuration, the host dialled and the frames the server
+    answers with (session.go `NewSession` check, conn.go `Conn.init` → `options` → `startup` →
+    `authenticateHandshake`) -/
 
 /-- what the server answers to the client's next request -/
 inductive SFrame
   | supported
   | ready
   | authenticate (cls : List UInt8)
-  | authChallenge
-  | authSuccess
+  | authChallenge (data : List UInt8)
+  | authSuccess (data : List UInt8)
   | error         -- an ERROR frame
   | other         -- any other well-formed response (RESULT, EVENT …)
   deriving DecidableEq, Repr
@@ -209,36 +210,199 @@ inductive Outcome
   | errUnapproved        -- "unexpected authenticator"
   | errAuthFrame         -- "unknown frame response during authentication"
   | errClosed            -- the server closed / sent nothing more
-  | crash                -- nil `challenger` dereferenced (PasswordAuthenticator returns a nil challenger)
+  | errAuthenticator     -- the error returned by a caller-supplied Authenticator's Challenge
+  | errAuthSuccess       -- the error returned by a caller-supplied Authenticator's Success
+  | errProvider          -- the error returned by ClusterConfig.AuthProvider for the host
+  | errBoth              -- NewSession: "Can't use both Authenticator and AuthProvider in cluster config."
+  | errTlsVerify         -- crypto/tls rejected the server's certificate (WrapTLS returns the handshake error)
+  | crash                -- nil `challenger` dereferenced in authenticateHandshake (process dies)
   deriving DecidableEq, Repr
 
-/-- the `for` loop of authenticateHandshake after the first AUTH_RESPONSE was written (challenger = nil) -/
-def authLoop : List SFrame → Outcome
-  | [] => .errClosed
-  | .error :: _ => .errServer
-  | .authSuccess :: _ => .ready
-  | .authChallenge :: _ => .crash
-  | _ :: _ => .errAuthFrame
+/-- one answer of a caller-supplied (scripted) Authenticator to a `Challenge` call -/
+structure Round where
+  resp : List UInt8   -- the token to send
+  fail : Bool         -- Challenge returns an error instead
+  last : Bool         -- Challenge returns a nil next-challenger
+  deriving DecidableEq, Repr
 
-def afterStartup (auth : Option PwAuth) : List SFrame → List Sent × Outcome
-  | [] => ([], .errClosed)
-  | .error :: _ => ([], .errServer)
-  | .ready :: _ => ([], .ready)
+/-- the authenticators a connection can end up with: gocql's own `PasswordAuthenticator`, or an implementation of
+    the `Authenticator` interface supplied by the caller (modelled as the list of its answers, one per `Challenge`
+    call, and the result of `Success`) -/
+inductive AuthImpl
+  | pw (p : PwAuth)
+  | custom (rounds : List Round) (successFails : Bool)
+  deriving DecidableEq, Repr
+
+/-- calls the driver makes on the connection's authenticator / the challengers it returned -/
+inductive Call
+  | challenge (req : List UInt8)
+  | success (data : List UInt8)
+  deriving DecidableEq, Repr
+
+/-- `Authenticator.Challenge(req)`: (token, next challenger) or an error -/
+def AuthImpl.challenge : AuthImpl → List UInt8 → Except Outcome (List UInt8 × Option AuthImpl)
+  | .pw p, req =>
+    match TlsAuth.challenge p req with
+    | some tok => .ok (tok, none)          -- `return resp, nil, nil`
+    | none => .error .errUnapproved
+  | .custom [] _, _ => .error .errAuthenticator
+  | .custom (r :: rs) sf, _ =>
+    if r.fail then .error .errAuthenticator
+    else .ok (r.resp, if r.last then none else some (.custom rs sf))
+
+/-- `Authenticator.Success(data)` -/
+def AuthImpl.success : AuthImpl → Outcome
+  | .pw _ => .ready
+  | .custom _ sf => if sf then .errAuthSuccess else .ready
+
+/-- what can be observed of one connection attempt -/
+structure Trace where
+  sent : List Sent          -- requests written to the server, in order
+  calls : List Call         -- calls on the authenticator chain, in order
+  provCalls : List Nat      -- hosts AuthProvider was called for
+  outcome : Outcome
+  deriving DecidableEq, Repr
+
+def Trace.stop (o : Outcome) : Trace := { sent := [], calls := [], provCalls := [], outcome := o }
+def Trace.pre (s : List Sent) (c : List Call) (t : Trace) : Trace :=
+  { t with sent := s ++ t.sent, calls := c ++ t.calls }
+
+/-- the `for` loop of authenticateHandshake after an AUTH_RESPONSE was written; `chal` is the `challenger`
+    variable (nil after `PasswordAuthenticator.Challenge`) -/
+def authLoop (chal : Option AuthImpl) : List SFrame → Trace
+  | [] => .stop .errClosed
+  | .error :: _ => .stop .errServer
+  | .authSuccess d :: _ =>
+    match chal with
+    | none => .stop .ready                                  -- `if challenger != nil {…}; return nil`
+    | some a => (Trace.stop a.success).pre [] [.success d]
+  | .authChallenge d :: rest =>
+    match chal with
+    | none => .stop .crash                                  -- `challenger.Challenge(v.data)` on a nil interface
+    | some a =>
+      match a.challenge d with
+      | .error e => (Trace.stop e).pre [] [.challenge d]
+      | .ok (resp, next) => (authLoop next rest).pre [.authResponse resp] [.challenge d]
+  | _ :: _ => .stop .errAuthFrame
+
+/-- `startup` after STARTUP was written; `auth` is `Conn.auth` -/
+def afterStartup (auth : Option AuthImpl) : List SFrame → Trace
+  | [] => .stop .errClosed
+  | .error :: _ => .stop .errServer
+  | .ready :: _ => .stop .ready
   | .authenticate cls :: rest =>
     match auth with
-    | none => ([], .errAuthRequired)
-    | some p =>
-      match challenge p cls with
-      | none => ([], .errUnapproved)
-      | some tok => ([.authResponse tok], authLoop rest)
-  | _ :: _ => ([], .errProtocol)
+    | none => .stop .errAuthRequired                         -- `if s.conn.auth == nil`
+    | some a =>
+      match a.challenge cls with
+      | .error e => (Trace.stop e).pre [] [.challenge cls]
+      | .ok (resp, next) => (authLoop next rest).pre [.authResponse resp] [.challenge cls]
+  | _ :: _ => .stop .errProtocol
 
-/-- everything the client sends and how `Conn.init` ends -/
-def handshake (auth : Option PwAuth) : List SFrame → List Sent × Outcome
-  | [] => ([.options], .errClosed)
-  | .supported :: rest =>
-    let r := afterStartup auth rest
-    (.options :: .startup :: r.1, r.2)
-  | _ :: _ => ([.options], .errProtocol)
+/-- everything the client sends and how `startupCoordinator.setupConn` ends, given `Conn.auth` -/
+def handshake (auth : Option AuthImpl) : List SFrame → Trace
+  | [] => (Trace.stop .errClosed).pre [.options] []
+  | .supported :: rest => (afterStartup auth rest).pre [.options, .startup] []
+  | _ :: _ => (Trace.stop .errProtocol).pre [.options] []
+
+/-- what `ClusterConfig.AuthProvider(host)` returns -/
+inductive ProvRes
+  | auth (a : Option AuthImpl)     -- (a, nil); `none` = (nil, nil): no credentials for this host
+  | err (a : Option AuthImpl)      -- (a, err)
+  deriving DecidableEq, Repr
+
+/-- the authentication part of a cluster configuration; hosts are numbered -/
+structure AuthCfg where
+  static : Option AuthImpl                 -- ClusterConfig.Authenticator
+  provider : Option (Nat → ProvRes)        -- ClusterConfig.AuthProvider
+
+/-- `Conn.init`: a configured AuthProvider is asked for the host being dialled and decides alone (its error ends the
+    attempt before anything is written); otherwise the static Authenticator is used -/
+def connect (cfg : AuthCfg) (host : Nat) (fs : List SFrame) : Trace :=
+  match cfg.provider with
+  | some f =>
+    match f host with
+    | .err _ => { Trace.stop .errProvider with provCalls := [host] }
+    | .auth a => { handshake a fs with provCalls := [host] }
+  | none => handshake cfg.static fs
+
+/-- `NewSession`: both Authenticator and AuthProvider set is refused before anything is dialled
+    (second component: number of dials) -/
+def newSession (cfg : AuthCfg) (host : Nat) (fs : List SFrame) : Trace × Nat :=
+  if cfg.static.isSome && cfg.provider.isSome then (.stop .errBoth, 0) else (connect cfg host fs, 1)
+
+/-! #### what the property demands (stated without the handshake code) -/
+
+namespace Spec
+/-- who supplies the credentials for a connection to `host`, as documented (cluster.go: `Authenticator`,
+    `AuthProvider` "An Authenticator factory"; NewSession: "either Authenticator is set or AuthProvider, not both"):
+    `none` = the attempt is abandoned (provider error), `some none` = the client has no credentials for this host -/
+def credentials (cfg : AuthCfg) (host : Nat) : Option (Option AuthImpl) :=
+  match cfg.provider with
+  | none => some cfg.static
+  | some f => match f host with
+    | .auth a => some a
+    | .err _ => none
+end Spec
+
+/-! ### dialling a host with TLS: `connConfig` (setupTLSConfig) → `defaultHostDialer.DialHost` → `WrapTLS`
+    (tlsConfigForAddr on `HostnameAndPort()`, `tls.Client(...).HandshakeContext`) → `Conn.init` -/
+
+/-- who signed a node's certificate: the CA in the file CaPath names, the CA in the caller's own RootCAs pool, or
+    a CA the client was never given -/
+inductive Signer | fileCA | poolCA | rogue
+  deriving DecidableEq, Repr
+
+/-- what matters of the certificate a node presents -/
+structure ServerCert where
+  sans : List (List UInt8)      -- subject alternative names (DNS names, IP literals)
+  signer : Signer
+  deriving DecidableEq, Repr
+
+/-- content of the derived config's RootCAs: the caller's pool (Clone keeps it) plus the CA file appended by
+    setupTLSConfig; without either RootCAs is nil = the system roots, which contain none of the scenario CAs -/
+def rootsTrust (o : SslOpts) : Signer → Bool
+  | .fileCA => o.ca = .valid
+  | .poolCA => (o.cfg.map (·.hasRootCAs)).getD false
+  | .rogue => false
+
+/-- crypto/tls client-side verification (Go library, assumed): nothing is checked with InsecureSkipVerify; otherwise
+    the chain must lead to RootCAs and the certificate must be valid for ServerName. -/
+def tlsAccepts (insecure trusted : Bool) (serverName : List UInt8) (cert : ServerCert) : Bool :=
+  insecure || (trusted && cert.sans.contains serverName)
+
+structure TlsDial where
+  serverName : List UInt8       -- ServerName of the config handed to crypto/tls for this dial
+  accepted : Bool               -- the TLS handshake completed
+  trace : Trace                 -- what followed on the connection
+  deriving DecidableEq, Repr
+
+/-- one dial of a host (`hostname` = HostInfo.hostname, or the connect address literal when it has none) -/
+def dialTLS (o : SslOpts) (hostname port : List UInt8) (cert : ServerCert) (auth : Option AuthImpl)
+    (fs : List SFrame) : Except TlsErr TlsDial :=
+  match setupTLSConfig o with
+  | .error e => .error e
+  | .ok c =>
+    let sn := (tlsConfigForAddr c.insecure c.serverName (joinHostPort hostname port)).1
+    if tlsAccepts c.insecure (rootsTrust o cert.signer) sn cert then .ok { serverName := sn, accepted := true, trace := handshake auth fs }
+    else .ok { serverName := sn, accepted := false, trace := .stop .errTlsVerify }
+
+namespace Spec
+/-- the documented table as a function (rows missing from the table would mean "verify") -/
+def mustVerify (o : SslOpts) : Bool := (documented (o.cfg.map (·.insecure)) o.enableHostVerification).getD true
+
+/-- the name the certificate must be valid for: the caller's explicit ServerName, else the host being dialled
+    (an IPv6 literal in brackets, as `net.JoinHostPort` writes it) -/
+def expectedName (o : SslOpts) (hostname : List UInt8) : List UInt8 :=
+  let explicit := (o.cfg.map (·.serverName)).getD []
+  if explicit ≠ [] then explicit
+  else if hostname.contains colon then [91] ++ hostname ++ [93] else hostname
+
+/-- may anything (in particular credentials) be sent to a node presenting `cert`?  Only if the documented table says
+    "do not verify", or the client was given the CA that signed the certificate (CaPath / own RootCAs) and the
+    certificate is valid for the expected name. -/
+def mayProceed (o : SslOpts) (hostname : List UInt8) (cert : ServerCert) : Bool :=
+  !mustVerify o || (rootsTrust o cert.signer && cert.sans.contains (expectedName o hostname))
+end Spec
 
 end TlsAuth
